@@ -45,6 +45,7 @@
 
 #include <openssl/crypto.h>
 #include <openssl/err.h>
+#include <openssl/ssl.h>
 
 /* ---- parameters ------------------------------------------------------------------------------------ */
 static char g_tp[16], g_sc[32], g_certs[256];
@@ -239,6 +240,40 @@ void __wrap_abort(void)
             faults_descr());
 }
 
+/* SSL_CTX objects created through the library (ctx_store.c is the only caller in the link) and not yet released by
+   it.  The counter is inherited across fork(): a child starts with its parent's number of live contexts, and once it
+   has cleaned up / closed every socket it holds, ITS count must be zero - each process owns its references. */
+static int g_live_ctx;
+SSL_CTX *__real_SSL_CTX_new(const SSL_METHOD *m);
+void __real_SSL_CTX_free(SSL_CTX *c);
+SSL_CTX *__wrap_SSL_CTX_new(const SSL_METHOD *m)
+{
+    SSL_CTX *c = __real_SSL_CTX_new(m);
+    if (c)
+        g_live_ctx++;
+    return c;
+}
+void __wrap_SSL_CTX_free(SSL_CTX *c)
+{
+    if (c)
+        g_live_ctx--;
+    __real_SSL_CTX_free(c);
+}
+
+static int g_parent_cleanups;      /* xcm_cleanup calls made by the scenario process itself (hand-over) */
+static char g_tp_fwd[16];
+
+static void check_ctx_released(const char *who)
+{
+    if (g_live_ctx != 0) {
+        char sig[200];
+        snprintf(sig, sizeof sig, "C08/cleanup-keeps-process-resource/ssl-ctx-reference/in=%s/tp=%s", who, g_tp_fwd);
+        mc_violation(sig, "the %s process has cleaned up / closed every socket it held, but %d SSL_CTX object(s) created by "
+                          "the library (certificate, private key, trust store) are still alive in it: xcm_cleanup did not "
+                          "drop this process's own reference in the context cache", who, g_live_ctx);
+    }
+}
+
 /* shutdown() is not interposed by the shim: a forked child that shuts down an inherited socket alters the owner's */
 int __real_shutdown(int fd, int how);
 int __wrap_shutdown(int fd, int how)
@@ -286,6 +321,16 @@ static struct xcm_socket *sreg(struct xcm_socket *s)
     if (s && g_nsocks < MAX_SOCKS)
         g_socks[g_nsocks++] = s;
     return s;
+}
+
+static void sforget(struct xcm_socket *s)
+{
+    for (int i = 0; i < g_nsocks; i++)
+        if (g_socks[i] == s) {
+            memmove(&g_socks[i], &g_socks[i + 1], (size_t)(g_nsocks - i - 1) * sizeof g_socks[0]);
+            g_nsocks--;
+            break;
+        }
 }
 
 static void sclose(struct xcm_socket **ps)
@@ -790,8 +835,8 @@ static void do_fork(void)
                       "through an inherited descriptor (first: %s); the owner's epoll set / timer / socket is changed "
                       "behind its back; scenario %s forkat=%d, injected fault(s): %s", nalt, what, g_sc, g_forkat,
                  faults_descr());
-            _exit(0);
         }
+        check_ctx_released("child");
         /* judged in the measured repetition, and only if no fault before the fork has already left something
            behind in the parent (that is reported at the end, once) */
         if (g_rep != 1 || g_rep_faults > 0)
@@ -1377,6 +1422,123 @@ static void sc_conn_variant(const char *what)
     sclose(&srv);
 }
 
+/* hand-over: the parent accepts a connection, forks a worker for it and xcm_cleanup()s its own copy (it keeps the
+   server); the worker xcm_cleanup()s the server and the client end it inherited, serves and closes the connection */
+static void sc_handover(void)
+{
+    char addr[200];
+    mkaddr(addr, sizeof addr, 1, NULL);
+    struct xcm_socket *srv = do_server(addr, BAD_NONE);
+    struct xcm_socket *c = srv ? do_connect(addr, BAD_NONE) : NULL;
+    struct xcm_socket *p = c ? do_accept(srv, BAD_NONE, c) : NULL;
+    int ok = p && establish(c, p) == 0 && pass_one(c, p, 1) == 0;
+    MUST(ok, "connection to hand over");
+    if (ok) {
+        mc_count(5, 1);
+        pid_t pid = fork();
+        if (pid < 0)
+            mc_fail("internal/fork", "fork: %s", errname(errno));
+        if (pid == 0) {
+            g_in_child = 1;
+            LAPI("xcm_cleanup", (xcm_cleanup(srv), 0));
+            LAPI("xcm_cleanup", (xcm_cleanup(c), 0));
+            char what[64];
+            int nalt = env_child_alterations(what, sizeof what);
+            if (nalt > 0) {
+                char sig[200];
+                snprintf(sig, sizeof sig, "C08/cleanup-altered-owner/%s/in-forked-child/tp=%s", what, g_tp);
+                VIOL(sig, "xcm_cleanup in the worker issued %d call(s) that alter a kernel object shared with its parent "
+                          "(first: %s); scenario handover", nalt, what);
+            }
+            LAPI("xcm_close", xcm_close(p));          /* the worker owns the connection now */
+            check_ctx_released("child");
+            _exit(0);
+        }
+        int st = 0;
+        while (waitpid(pid, &st, 0) < 0 && errno == EINTR)
+            ;
+        if (!(WIFEXITED(st) && WEXITSTATUS(st) == 0)) {
+            char sig[200];
+            snprintf(sig, sizeof sig, "C08/crash-in-forked-child/status=0x%x/tp=%s", st, g_tp);
+            VIOL(sig, "the worker died (wait status 0x%x); scenario handover", st);
+        }
+        LAPI("xcm_cleanup", (xcm_cleanup(p), 0));     /* the parent's copy of the handed-over connection */
+        sforget(p);
+        p = NULL;
+        g_parent_cleanups++;
+        /* the parent's server is still in business */
+        struct xcm_socket *c2 = do_connect(addr, BAD_NONE);
+        struct xcm_socket *p2 = c2 ? do_accept(srv, BAD_NONE, c2) : NULL;
+        int ok2 = p2 && establish(c2, p2) == 0 && pass_one(c2, p2, 2) == 0;
+        MUST(ok2, "second connection after the hand-over");
+        if (!ok2 && !g_nfrec) {
+            char sig[200];
+            snprintf(sig, sizeof sig, "C08/cleanup-disturbed-connection/step=server-after-handover/tp=%s", g_tp);
+            VIOL(sig, "after handing a connection over (fork, xcm_cleanup in both processes) the parent's server no longer "
+                      "accepts; scenario handover");
+        }
+        sclose(&c2);
+        sclose(&p2);
+    }
+    sclose(&c);
+    sclose(&p);
+    sclose(&srv);
+}
+
+/* what a process that only cleans up keeps must not grow with the number of sockets it cleaned up: the same fork +
+   xcm_cleanup of everything with 1 and with 3 connections, the child reports its heap in use */
+static void sc_forkn(void)
+{
+    long heap[2] = { 0, 0 };
+    static const int ks[2] = { 1, 3 };
+    for (int r = 0; r < 2; r++) {
+        char addr[200];
+        mkaddr(addr, sizeof addr, 1 + r, NULL);
+        struct xcm_socket *srv = do_server(addr, BAD_NONE);
+        int n = 0;
+        for (int i = 0; srv && i < ks[r]; i++) {
+            struct xcm_socket *c = do_connect(addr, BAD_NONE);
+            struct xcm_socket *p = c ? do_accept(srv, BAD_NONE, c) : NULL;
+            if (c && p && establish(c, p) == 0)
+                n++;
+        }
+        MUST(n == ks[r], "connections before the fork");
+        int pfd[2];
+        if (n == ks[r] && pipe(pfd) == 0) {
+            mc_count(5, 1);
+            pid_t pid = fork();
+            if (pid < 0)
+                mc_fail("internal/fork", "fork: %s", errname(errno));
+            if (pid == 0) {
+                g_in_child = 1;
+                for (int i = g_nsocks - 1; i >= 0; i--)
+                    LAPI("xcm_cleanup", (xcm_cleanup(g_socks[i]), 0));
+                check_ctx_released("child");
+                long h = heap_now();
+                if (write(pfd[1], &h, sizeof h) < 0) {
+                }
+                _exit(0);
+            }
+            int st = 0;
+            while (waitpid(pid, &st, 0) < 0 && errno == EINTR)
+                ;
+            long h = 0;
+            if (WIFEXITED(st) && WEXITSTATUS(st) == 0 && read(pfd[0], &h, sizeof h) == (ssize_t)sizeof h)
+                heap[r] = h;
+            close(pfd[0]);
+            close(pfd[1]);
+        }
+        close_all();
+    }
+    mc_observe("heap of the cleaning child: %ld with 1 connection, %ld with 3", heap[0], heap[1]);
+    if (heap[0] && heap[1] && heap[1] > heap[0] + 256 && !g_nfrec) {
+        char sig[200];
+        snprintf(sig, sizeof sig, "C08/cleanup-keeps-process-resource/heap-grows-with-sockets/in=child/tp=%s", g_tp);
+        VIOL(sig, "after xcm_cleanup of every socket the forked child holds %ld bytes with one connection cleaned up and "
+                  "%ld with three: what cleanup leaves behind grows with the number of sockets", heap[0], heap[1]);
+    }
+}
+
 static void body(void)
 {
     g_boundary = 0;
@@ -1406,6 +1568,8 @@ static void body(void)
     else if (!strcmp(g_sc, "conn-local")) sc_conn_variant("local");
     else if (!strcmp(g_sc, "conn-dns")) sc_conn_variant("dns");
     else if (!strcmp(g_sc, "dns-fail")) sc_conn_variant("fail");
+    else if (!strcmp(g_sc, "handover")) sc_handover();
+    else if (!strcmp(g_sc, "forkn")) sc_forkn();
     else if (!strcmp(g_sc, "ctlclient")) sc_ctlclient(0);
     else if (!strcmp(g_sc, "ctlfork")) sc_ctlclient(1);
     else
@@ -1447,6 +1611,7 @@ static void scenario(const char *params)
 {
     char ctl[24];
     param_get(params, "tp", g_tp, sizeof g_tp, "tcp");
+    snprintf(g_tp_fwd, sizeof g_tp_fwd, "%s", g_tp);
     param_get(params, "sc", g_sc, sizeof g_sc, "server");
     param_get(params, "certs", g_certs, sizeof g_certs, "");
     param_get(params, "ctl", ctl, sizeof ctl, "off");
@@ -1492,6 +1657,8 @@ static void scenario(const char *params)
     body();
     mc_count(2, 1);
     int warm_failed = g_failed_steps;
+    if (g_parent_cleanups)
+        check_ctx_released("parent");
     files_snapshot(&g_base_files);
     fd_snapshot(&g_base_fds);
     g_base_stray = env_stray_closes();
@@ -1514,6 +1681,18 @@ static void scenario(const char *params)
     if (!g_nfrec && !g_forkat && g_failed_steps != warm_failed)
         mc_fail("internal/nondeterministic-body", "the fault-free repetition behaved differently from the warm-up");
     int failed_steps = g_failed_steps;
+
+    /* every socket is closed (or, hand-over, cleaned up): no context may be left in this process */
+    if (g_live_ctx != 0) {
+        if (g_parent_cleanups)
+            check_ctx_released("parent");
+        else {
+            char csig[256];
+            snprintf(csig, sizeof csig, "C08/heap-leak/ssl-ctx/after=%s/tp=%s", faults_descr(), g_tp);
+            VIOL(csig, "%d SSL_CTX object(s) created by the library are still alive after every socket was closed; scenario "
+                       "%s, injected fault(s): %s", g_live_ctx, g_sc, faults_descr());
+        }
+    }
 
     /* heap: the same faults again, several times: a leak repeats with the same amount every time, a first-use
        allocation (libc, OpenSSL, resolver stub caches) does not */
